@@ -1371,3 +1371,294 @@ Proof.
   split; [vm_compute; reflexivity|]. split; [apply spectrum_eq; vm_compute; reflexivity|].
   split; [res_q|]. split; [qc_eval | res_l].
 Qed.
+
+(* ------------------------------------------------------------------ *)
+(* the machine with the resample fix: the invariant needs no side condition *)
+Lemma resample_fixed_spec s g : wf s ->
+  match resample_fixed s g with
+  | (s', None) => wf s' /\ wave s' = g /\ value s' = map (interp (wave s) (value s)) g
+  | (s', Some e) => s' = s
+  end.
+Proof.
+  intros (W1 & W2 & W3). unfold resample_fixed, sample.
+  destruct (length (wave s) =? 0)%nat; auto.
+  destruct (length (wave s) =? length (value s))%nat; simpl; auto.
+  destruct (wave_check g) as [w'|e] eqn:Ec; auto.
+  apply wave_check_ok in Ec. destruct Ec as (-> & C1 & C2). split; auto.
+  apply wf_of_samples; auto. rewrite map_length. reflexivity.
+Qed.
+Lemma exec_fixed_wf s o : wf s -> op_ok o -> wf (fst (exec_fixed s o)).
+Proof.
+  intros W Ho. destruct o as [a b|tol|e0 e1 sm md|o'|g];
+    try (apply (exec_wf s _ W Ho); simpl; tauto).
+  simpl. pose proof (resample_fixed_spec s g W) as T. destruct (resample_fixed s g) as [s' [e|]]; simpl; [subst; auto | tauto].
+Qed.
+Lemma exec_fixed_retained s o : wf s -> op_ok o ->
+  forall x y y', lookup (samples (fst (exec_fixed s o))) x = Some y' -> lookup (samples s) x = Some y -> y' = y.
+Proof.
+  intros W Ho. destruct o as [a b|tol|e0 e1 sm md|o'|g];
+    try (apply (exec_retained s _ W Ho); simpl; tauto).
+  simpl. pose proof (resample_fixed_spec s g W) as T. destruct (resample_fixed s g) as [s' [e|]]; simpl in *.
+  - subst. intros x y y' L' L. congruence.
+  - destruct T as (_ & T1 & T2). intros x y y' L' L. apply lookup_In in L', L.
+    unfold samples in L'. rewrite T1, T2 in L'. apply In_combine_map in L'. subst y'.
+    apply interp_node; auto; apply W.
+Qed.
+Lemma run_fixed_wf ops : forall s, wf s -> Forall op_ok ops ->
+  wf (run_fixed s ops) /\ Forall (fun r => wf (fst r)) (trace_fixed s ops).
+Proof.
+  induction ops as [|o t IH]; simpl; intros s W Ho; [split; auto|].
+  inversion Ho; subst. pose proof (exec_fixed_wf s o W H1) as W'. destruct (IH _ W' H2) as [I1 I2].
+  split; auto.
+Qed.
+Lemma resample_fixed_refused s g e : snd (resample_fixed s g) = Some e -> fst (resample_fixed s g) = s.
+Proof. unfold resample_fixed. destruct (sample s g); simpl; auto. destruct (wave_check g); simpl; auto. discriminate. Qed.
+
+(* ------------------------------------------------------------------ *)
+(* Simpson bins without power preservation are non-negative for ANY increasing centres: the weights
+   (1, 4, 1) * (bin width) / 6 are positive whether or not the node is the middle of the bin *)
+Fixpoint edges_ordered (x : list Qc) : Prop :=
+  match x with x0 :: x1 :: ((x2 :: _) as t) => x0 <= x2 /\ edges_ordered t | _ => True end.
+Lemma simps_term_nonneg x0 x2 f0 f1 f2 : x0 <= x2 -> 0 <= f0 -> 0 <= f1 -> 0 <= f2 ->
+  0 <= ((x2 - x0) / six) * (f0 + four * f1 + f2).
+Proof. intros. qc2q. nra. Qed.
+Lemma chain_simps_nonneg : forall n p, (length p <= n)%nat -> edges_ordered (map fst p) ->
+  Forall (fun y => 0 <= y) (map snd p) -> Forall (fun y => 0 <= y) (chain_simps p).
+Proof.
+  induction n as [|n IH]; intros p Hn O N.
+  - destruct p; [constructor | simpl in Hn; lia].
+  - destruct p as [|[x0 f0] [|[x1 f1] [|[x2 f2] t]]]; try (constructor; fail).
+    change (chain_simps ((x0, f0) :: (x1, f1) :: (x2, f2) :: t))
+      with (((x2 - x0) / six) * (f0 + four * f1 + f2) :: chain_simps ((x2, f2) :: t)).
+    constructor.
+    + simpl in O, N. destruct O as [O1 _]. inversion N as [|? ? N0 N']; subst. inversion N' as [|? ? N1 N'']; subst.
+      inversion N'' as [|? ? N2 _]; subst. apply simps_term_nonneg; auto.
+    + apply IH; [simpl in *; lia | apply O |]. inversion N as [|? ? _ N']; subst. inversion N'; auto.
+Qed.
+Lemma mid_ge_left a b : a < b -> a <= a + (b - a) / two.
+Proof. intros. qc2q. lra. Qed.
+Lemma sym_nodes_ordered t : forall a p z, increasing (a :: t) -> p <= a -> last (a :: t) 0 <= z ->
+  edges_ordered (p :: interleave (a :: t) (mids (a :: t)) ++ [z]).
+Proof.
+  induction t as [|b t' IH]; intros a p z I Hp Hz.
+  - simpl in *. split; auto. eapply Qcle_trans; eauto.
+  - destruct I as [I1 I2]. change (last (a :: b :: t') 0) with (last (b :: t') 0) in Hz.
+    change (mids (a :: b :: t')) with ((a + (b - a) / two) :: mids (b :: t')).
+    change (interleave (a :: b :: t') ((a + (b - a) / two) :: mids (b :: t')))
+      with (a :: (a + (b - a) / two) :: interleave (b :: t') (mids (b :: t'))).
+    change (p :: (a :: (a + (b - a) / two) :: interleave (b :: t') (mids (b :: t'))) ++ [z])
+      with (p :: a :: ((a + (b - a) / two) :: interleave (b :: t') (mids (b :: t')) ++ [z])).
+    assert (M : edges_ordered ((a + (b - a) / two) :: interleave (b :: t') (mids (b :: t')) ++ [z])).
+    { apply IH; auto. apply mid_le_right; auto. }
+    destruct (interleave (b :: t') (mids (b :: t')) ++ [z]) eqn:E.
+    + destruct (interleave (b :: t') (mids (b :: t'))); discriminate.
+    + split; auto. eapply Qcle_trans; [eassumption | apply mid_ge_left; auto].
+Qed.
+Lemma inside_tail_ordered t : forall b mp v, increasing (b :: t) -> mp <= b ->
+  edges_ordered (insert_before_last (mp :: interleave (b :: t) (mids (b :: t))) v).
+Proof.
+  induction t as [|c t' IH]; intros b mp v I Hp.
+  - simpl. auto.
+  - destruct I as [I1 I2].
+    change (mids (b :: c :: t')) with ((b + (c - b) / two) :: mids (c :: t')) in *.
+    change (interleave (b :: c :: t') ((b + (c - b) / two) :: mids (c :: t')))
+      with (b :: (b + (c - b) / two) :: interleave (c :: t') (mids (c :: t'))) in *.
+    set (Y' := (b + (c - b) / two) :: interleave (c :: t') (mids (c :: t'))) in *.
+    assert (L2 : (2 <= length Y')%nat).
+    { unfold Y'. destruct (interleave_head c t' (mids (c :: t'))) as (r & ->). simpl. lia. }
+    rewrite insert_before_last_cons2 by auto.
+    assert (M : edges_ordered (insert_before_last Y' v)).
+    { apply IH; auto. apply mid_le_right; auto. }
+    assert (Hh : exists r, insert_before_last Y' v = (b + (c - b) / two) :: r).
+    { unfold Y'. destruct (interleave_head c t' (mids (c :: t'))) as (r & ->). apply insert_before_last_head. }
+    destruct Hh as (r & Er). rewrite Er in *. split; auto.
+    eapply Qcle_trans; [eassumption | apply mid_ge_left; auto].
+Qed.
+Lemma bin_nodes_ordered e c : increasing c -> (2 <= length c)%nat -> edges_ordered (bin_nodes_simps e c).
+Proof.
+  intros I L. destruct c as [|a [|b t]]; simpl in L; try lia. unfold bin_nodes_simps. destruct e.
+  - pose proof (last_halfdiffs_nonneg _ I) as HL. apply (sym_nodes_ordered (b :: t) a); auto.
+    + change (halfdiffs (a :: b :: t)) with ((b - a) / two :: halfdiffs (b :: t)). cbn [hd]. destruct I as [I1 _]. qc2q. lra.
+    + set (l := last (a :: b :: t) 0) in *. set (h := last (halfdiffs (a :: b :: t)) 0) in *. clearbody l h. qc2q. lra.
+  - destruct I as [I1 I2].
+    change (mids (a :: b :: t)) with ((a + (b - a) / two) :: mids (b :: t)).
+    change (interleave (a :: b :: t) ((a + (b - a) / two) :: mids (b :: t)))
+      with (a :: (a + (b - a) / two) :: interleave (b :: t) (mids (b :: t))).
+    cbv beta iota.
+    set (Y := (a + (b - a) / two) :: interleave (b :: t) (mids (b :: t))).
+    assert (L2 : (2 <= length Y)%nat).
+    { unfold Y. destruct (interleave_head b t (mids (b :: t))) as (r & ->). simpl. lia. }
+    match goal with |- edges_ordered (insert_before_last _ ?v) => set (v0 := v) end.
+    rewrite insert_before_last_cons2 by auto.
+    assert (M : edges_ordered (insert_before_last Y v0)).
+    { apply (inside_tail_ordered t b); auto. apply mid_le_right; auto. }
+    assert (Hh : exists r, insert_before_last Y v0 = (a + (b - a) / two) :: r).
+    { unfold Y. destruct (interleave_head b t (mids (b :: t))) as (r & ->). apply insert_before_last_head. }
+    destruct Hh as (r & Er). rewrite Er in *. split; auto. apply mid_ge_left; auto.
+Qed.
+Lemma raw_bins_simps_nonneg s c e b : length (wave s) = length (value s) -> Forall (fun y => 0 <= y) (value s) ->
+  increasing c -> raw_bins s c Simps e = Ok b -> Forall (fun y => 0 <= y) b.
+Proof.
+  intros L N I. unfold raw_bins. destruct (length c <? 2)%nat eqn:E; [discriminate|]. apply Nat.ltb_ge in E.
+  unfold sample. destruct (length (wave s) =? 0)%nat; [discriminate|]. destruct (negb _); [discriminate|]. simpl.
+  intros H. inversion H; subst. clear H. eapply chain_simps_nonneg; [apply Nat.le_refl | |].
+  - rewrite map_fst_combine by (rewrite map_length; reflexivity). apply bin_nodes_ordered; auto.
+  - rewrite map_snd_combine by (rewrite map_length; reflexivity). apply Forall_map_nonneg_interp; auto.
+Qed.
+
+(* ------------------------------------------------------------------ *)
+(* scipy's composite Simpson rule has positive weights on uniformly sampled data (odd and even number of
+   samples): the integral of non-negative uniform data is non-negative, hence so are power-preserved Simpson bins *)
+Lemma three_eq : three = 1 + 1 + 1. Proof. apply Qc_is_canon. reflexivity. Qed.
+Ltac hneq H := repeat split; try (let K := fresh in intro K; apply H; rewrite <- K; ring);
+  try (let K := fresh in let K2 := fresh in let K3 := fresh in intro K;
+       match type of H with ?h <> _ => assert (K2 : (1 + 1) * h = 0) by (rewrite <- K; ring) end;
+       destruct (Qcmult_integral _ _ K2) as [K3|K3]; [exact (opo_neq0 K3) | exact (H K3)]);
+  qc_neq0.
+Lemma panel_uniform x0 y0 y1 y2 h : h <> 0 ->
+  simpson_panel x0 y0 (x0 + h) y1 (x0 + h + h) y2 = h * (y0 + four * y1 + y2) / three.
+Proof. intros H. unfold simpson_panel. rewrite two_eq, four_eq, six_eq, three_eq. field. hneq H. Qed.
+Lemma last_uniform x0 y0 y1 y2 h : h <> 0 ->
+  simpson_last x0 y0 (x0 + h) y1 (x0 + h + h) y2
+  = h * ((1 + 1 + 1 + 1 + 1) * y2 + (1 + 1) * (1 + 1) * (1 + 1) * y1 - y0) / ((1 + 1) * (1 + 1) * (1 + 1 + 1)).
+Proof. intros H. unfold simpson_last. rewrite two_eq, six_eq, three_eq. field. hneq H. Qed.
+Lemma step_eq a b h : b - a = h -> b = a + h.
+Proof. intros <-. ring. Qed.
+Lemma pos_neq0 h : 0 < h -> h <> 0.
+Proof. intros H K. subst. apply (Qclt_not_eq _ _ H). reflexivity. Qed.
+Lemma panel_uniform_nonneg x0 y0 y1 y2 h : 0 < h -> 0 <= y0 -> 0 <= y1 -> 0 <= y2 ->
+  0 <= simpson_panel x0 y0 (x0 + h) y1 (x0 + h + h) y2.
+Proof. intros H H0 H1 H2. rewrite panel_uniform by (apply pos_neq0; auto). qc2q. nra. Qed.
+Lemma simpson_basic_uniform_nonneg h : 0 < h -> forall n p, (length p <= n)%nat ->
+  uniform_step h (map fst p) -> Forall (fun y => 0 <= y) (map snd p) -> 0 <= simpson_basic p.
+Proof.
+  intros Hh. induction n as [|n IH]; intros p Hn U N.
+  - destruct p; [apply Qcle_refl | simpl in Hn; lia].
+  - destruct p as [|[x0 y0] [|[x1 y1] [|[x2 y2] t]]]; try apply Qcle_refl.
+    change (simpson_basic ((x0, y0) :: (x1, y1) :: (x2, y2) :: t))
+      with (simpson_panel x0 y0 x1 y1 x2 y2 + simpson_basic ((x2, y2) :: t)).
+    simpl in U, N. destruct U as (U1 & U2 & U3). apply step_eq in U1. apply step_eq in U2. subst x1 x2.
+    inversion N as [|? ? N0 N']. inversion N' as [|? ? N1 N'']. inversion N'' as [|? ? N2 N3].
+    replace 0 with (0 + 0) by ring. apply Qcplus_le_compat; [apply panel_uniform_nonneg; auto|].
+    apply IH; [simpl in *; lia | exact U3 | constructor; auto].
+Qed.
+
+Definition simpson_even (p : list (Qc * Qc)) : Qc :=
+  match last3 p with
+  | Some ((xa, ya), (xb, yb), (xc, yc)) => simpson_basic (removelast p) + simpson_last xa ya xb yb xc yc
+  | None => 0
+  end.
+Lemma last3_cons2 (q0 q1 : Qc * Qc) L : (3 <= length L)%nat -> last3 (q0 :: q1 :: L) = last3 L.
+Proof.
+  intros H. unfold last3. simpl rev. rewrite <- (rev_length L) in H.
+  destruct (rev L) as [|c [|b [|a r]]]; simpl in H; try lia. reflexivity.
+Qed.
+Lemma simpson_even_step q0 q1 q2 R : (3 <= length (q2 :: R))%nat ->
+  simpson_even (q0 :: q1 :: q2 :: R) =
+  simpson_panel (fst q0) (snd q0) (fst q1) (snd q1) (fst q2) (snd q2) + simpson_even (q2 :: R).
+Proof.
+  intros H. unfold simpson_even. rewrite last3_cons2 by auto.
+  destruct (last3 (q2 :: R)) as [[[[xa ya] [xb yb]] [xc yc]]|] eqn:E.
+  - destruct R as [|r0 R']; [simpl in H; lia|].
+    change (removelast (q0 :: q1 :: q2 :: r0 :: R')) with (q0 :: q1 :: q2 :: removelast (r0 :: R')).
+    change (removelast (q2 :: r0 :: R')) with (q2 :: removelast (r0 :: R')).
+    destruct q0 as [x0 y0], q1 as [x1 y1], q2 as [x2 y2].
+    change (simpson_basic ((x0, y0) :: (x1, y1) :: (x2, y2) :: removelast (r0 :: R')))
+      with (simpson_panel x0 y0 x1 y1 x2 y2 + simpson_basic ((x2, y2) :: removelast (r0 :: R'))).
+    simpl fst. simpl snd. ring.
+  - exfalso. unfold last3 in E. rewrite <- (rev_length (q2 :: R)) in H.
+    destruct (rev (q2 :: R)) as [|c [|b [|a r]]]; simpl in H; try lia. discriminate.
+Qed.
+Lemma even4_nonneg x0 y0 y1 y2 y3 h : 0 < h -> 0 <= y0 -> 0 <= y1 -> 0 <= y2 -> 0 <= y3 ->
+  0 <= simpson_panel x0 y0 (x0 + h) y1 (x0 + h + h) y2 + simpson_last (x0 + h) y1 (x0 + h + h) y2 (x0 + h + h + h) y3.
+Proof.
+  intros H H0 H1 H2 H3. rewrite panel_uniform by (apply pos_neq0; auto).
+  rewrite (last_uniform (x0 + h) y1 y2 y3 h) by (apply pos_neq0; auto). rewrite four_eq, three_eq.
+  qc2q. change (/ (1 + 1 + 1))%Q with (1 # 3)%Q. change (/ ((1 + 1) * (1 + 1) * (1 + 1 + 1)))%Q with (1 # 12)%Q. nra.
+Qed.
+Lemma simpson_even_uniform_nonneg h : 0 < h -> forall n p, (length p <= n)%nat ->
+  Nat.even (length p) = true -> (4 <= length p)%nat ->
+  uniform_step h (map fst p) -> Forall (fun y => 0 <= y) (map snd p) -> 0 <= simpson_even p.
+Proof.
+  intros Hh. induction n as [|n IH]; intros p Hn Ev L4 U N; [lia|].
+  destruct p as [|[x0 y0] [|[x1 y1] [|[x2 y2] [|[x3 y3] t]]]]; simpl in L4; try lia.
+  simpl in U, N. destruct U as (U1 & U2 & U3). apply step_eq in U1. apply step_eq in U2. subst x1 x2.
+  inversion N as [|? ? N0 N']. inversion N' as [|? ? N1 N'']. inversion N'' as [|? ? N2 N3].
+  destruct t as [|q4 t'].
+  - (* four samples *)
+    destruct U3 as [U3 _]. apply step_eq in U3. subst x3. inversion N3 as [|? ? N4 _].
+    unfold simpson_even. simpl. rewrite Qcplus_0_r. apply even4_nonneg; auto.
+  - rewrite simpson_even_step by (simpl; lia). simpl fst. simpl snd.
+    replace 0 with (0 + 0) by ring. apply Qcplus_le_compat; [apply panel_uniform_nonneg; auto|].
+    apply IH.
+    + simpl in *. lia.
+    + simpl in Ev |- *. destruct t' as [|q5 t'']; [discriminate|]. exact Ev.
+    + destruct t' as [|q5 t'']; [simpl in Ev; discriminate | simpl; lia].
+    + exact U3.
+    + constructor; auto.
+Qed.
+Lemma Ok_inj {A} (a b : A) : @Ok A a = Ok b -> a = b.
+Proof. congruence. Qed.
+Lemma simpson_uniform_nonneg h p r : 0 < h -> uniform_step h (map fst p) -> Forall (fun y => 0 <= y) (map snd p) ->
+  simpson p = Ok r -> 0 <= r.
+Proof.
+  intros Hh U N. destruct p as [|[x0 y0] [|[x1 y1] [|q2 t]]].
+  - discriminate.
+  - simpl. intros H. inversion H. apply Qcle_refl.
+  - simpl. intros H. inversion H. simpl in U, N. destruct U as [U _]. rewrite U.
+    inversion N as [|? ? N0 N']. inversion N' as [|? ? N1 _]. qc2q. nra.
+  - rewrite simpson_ge3. destruct (Nat.even (length ((x0, y0) :: (x1, y1) :: q2 :: t))) eqn:Ev.
+    + pose proof (simpson_even_uniform_nonneg h Hh _ _ (Nat.le_refl _) Ev) as G.
+      unfold simpson_even in G.
+      destruct (last3 ((x0, y0) :: (x1, y1) :: q2 :: t)) as [[[[xa ya] [xb yb]] [xc yc]]|]; [|discriminate].
+      intros H. apply Ok_inj in H. rewrite <- H. apply G; auto.
+      destruct t; [simpl in Ev; discriminate | simpl; lia].
+    + intros H. apply Ok_inj in H. rewrite <- H. apply (simpson_basic_uniform_nonneg h Hh _ _ (Nat.le_refl _)); auto.
+Qed.
+
+(* the samples of a uniform grid inside a closed range are again uniform *)
+Lemma uniform_increasing h w : 0 < h -> uniform_step h w -> increasing w.
+Proof.
+  intros Hh. induction w as [|a [|b t] IH]; simpl; auto. intros [U1 U2]. split; [|apply IH; exact U2].
+  apply step_eq in U1. subst b. qc2q. lra.
+Qed.
+Lemma uniform_filter_range h lo hi w : 0 < h -> uniform_step h w -> uniform_step h (filter (in_range lo hi) w).
+Proof.
+  intros Hh. induction w as [|a [|b t] IH]; intros U.
+  - simpl. auto.
+  - simpl. destruct (in_range lo hi a); simpl; auto.
+  - pose proof (uniform_increasing h _ Hh U) as I. destruct U as [U1 U2]. specialize (IH U2).
+    change (filter (in_range lo hi) (a :: b :: t))
+      with (if in_range lo hi a then a :: filter (in_range lo hi) (b :: t) else filter (in_range lo hi) (b :: t)).
+    destruct (in_range lo hi a) eqn:Ea; auto.
+    change (filter (in_range lo hi) (b :: t))
+      with (if in_range lo hi b then b :: filter (in_range lo hi) t else filter (in_range lo hi) t) in *.
+    destruct (in_range lo hi b) eqn:Eb.
+    + split; auto.
+    + (* b is above the range (it is above a, which is inside): so is everything after it *)
+      rewrite filter_none; [simpl; auto|]. intros x Hx. unfold in_range in *.
+      apply andb_prop in Ea. destruct Ea as [Ea1 Ea2]. qb.
+      destruct I as [I1 I2].
+      assert (Hb : qle lo b = true) by (apply qle_iff; eapply Qcle_trans; [eassumption | apply Qclt_le_weak; auto]).
+      rewrite Hb in Eb. simpl in Eb. qb.
+      replace (qle x hi) with false; [apply andb_false_r|]. symmetry. apply qle_false.
+      eapply Qclt_le_trans; [eassumption|]. eapply increasing_head_le; eauto. right. exact Hx.
+Qed.
+
+Lemma bin_simps_nonneg s c e pp b h : wf s -> 0 < h -> uniform_step h (wave s) ->
+  Forall (fun y => 0 <= y) (value s) -> increasing c ->
+  bin s c Simps e pp = Ok (Some b) -> Forall (fun y => 0 <= y) b.
+Proof.
+  intros W Hh U N I H. destruct (bin_spec _ _ _ _ _ _ H) as (_ & Hp & Hn). destruct pp.
+  - destruct (Hp eq_refl) as (raw & lo & hi & tot & R & _ & _ & T & Z & -> & _).
+    pose proof (raw_bins_simps_nonneg _ _ _ _ (proj2 (proj2 W)) N I R) as RN.
+    assert (TN : 0 <= tot).
+    { unfold integrate in T. simpl in T. eapply (simpson_uniform_nonneg h); eauto.
+      - unfold select. rewrite <- filter_map_fst. rewrite (wf_wave _ W). apply uniform_filter_range; auto.
+      - apply Forall_forall. intros y Hy. apply in_map_iff in Hy. destruct Hy as ([x y'] & <- & Hq).
+        apply filter_In in Hq. destruct Hq as [Hq _]. apply (in_map snd) in Hq. rewrite (wf_value _ W) in Hq.
+        rewrite Forall_forall in N. apply N. exact Hq. }
+    apply Forall_forall. intros y Hy. apply in_map_iff in Hy. destruct Hy as (x & <- & Hx).
+    apply scale_nonneg; auto. + rewrite Forall_forall in RN. auto. + apply qsum_nonneg; auto.
+  - eapply raw_bins_simps_nonneg; eauto. apply W.
+Qed.
